@@ -8,7 +8,7 @@
    transformation() followed by conversion_surface_params(). *)
 From Coq Require Import List ZArith Bool Reals Lra.
 From T4V Require Import Base.Scalar C04.Vec C04.Model C04.Spec C04.ProofsFrame C04.ProofsConvert
-  C04.ProofsQuad C04.ProofsSurf C04.ProofsMatrix C04.ProofsCard C04.ProofsTorus C04.ProofsMatrix5.
+  C04.ProofsQuad C04.ProofsSurf C04.ProofsMatrix C04.ProofsCard C04.ProofsTorus C04.ProofsMatrix5 C04.ProofsCompose.
 Import ListNotations.
 Open Scope R_scope.
 
@@ -217,6 +217,55 @@ Theorem C04_frame_transform_sq : forall (q : list R) (o : R3) (b : M3 R) pt u na
              t4val c (to_main o b p') = msense s p').
 Proof. exact frame_transform_sq. Qed.
 Print Assumptions C04_frame_transform_sq.
+
+(* ---------- compose_transform and its call sites ---------- *)
+(* [tr12 o b] = the 12 numbers; [aff o b p] = B p + O (the reading of the docstring and of
+   Transformation.transform_vector); [to_main o b p] = O + B^T p (the reading that moves
+   surfaces).  compose_transform is the composition in the affine reading ... *)
+Theorem C04_compose_affine : forall o1 b1 o2 b2 p,
+  exists o b, compose_transform RS (tr12 o1 b1) (tr12 o2 b2) = Some (tr12 o b) /\
+              aff o b p = aff o2 b2 (aff o1 b1 p).
+Proof. exact compose_affine. Qed.
+Print Assumptions C04_compose_affine.
+
+(* ... and in the MCNP reading exactly when B2 B1 = B1 B2 and B2 O1 = B2^T O1 *)
+Theorem C04_compose_mcnp_iff : forall o1 b1 o2 b2,
+  exists o b, compose_transform RS (tr12 o1 b1) (tr12 o2 b2) = Some (tr12 o b) /\
+    ((forall p, to_main o b p = to_main o2 b2 (to_main o1 b1 p)) <-> commute_cond o1 b1 b2).
+Proof. exact compose_mcnp_iff. Qed.
+Print Assumptions C04_compose_mcnp_iff.
+
+Theorem C04_compose_not_mcnp_composition_in_general :
+  exists o1 b1 o2 b2 o b p,
+    rotation b1 /\ rotation b2 /\
+    compose_transform RS (tr12 o1 b1) (tr12 o2 b2) = Some (tr12 o b) /\
+    to_main o b p <> to_main o2 b2 (to_main o1 b1 p).
+Proof. exact compose_not_mcnp_composition_in_general. Qed.
+Print Assumptions C04_compose_not_mcnp_composition_in_general.
+
+Theorem C04_compose_translation_second : forall o1 b1 o2,
+  compose_transform RS (tr12 o1 b1) (tr12 o2 idR) = Some (tr12 (vplus (mvec idR o1) o2) (mmul idR b1)) /\
+  commute_cond o1 b1 idR /\
+  forall p, to_main (vplus (mvec idR o1) o2) (mmul idR b1) p = vplus o2 (to_main o1 b1 p).
+Proof. exact compose_translation_second. Qed.
+Print Assumptions C04_compose_translation_second.
+
+(* the only caller, develop_lattice: a lattice element's fill transformation is the
+   cell's fill transformation (else its TRCL, else nothing) followed by the translation
+   to the element; the TRCL list is the parser's (at most one transformation) *)
+Theorem C04_lattice_filltr_fill : forall (o : R3) (b : M3 R) trcls (transl : R3),
+  exists o' b', lattice_filltr RS (tr12 o b) trcls transl = Some (tr12 o' b') /\
+    forall p, to_main o' b' p = translate transl (to_main o b p).
+Proof. exact lattice_filltr_fill. Qed.
+Print Assumptions C04_lattice_filltr_fill.
+
+Theorem C04_lattice_filltr_trcl : forall (o : R3) (b : M3 R) (transl : R3),
+  lattice_filltr RS [] [] transl = Some (tr12 transl idR) /\
+  (forall p, to_main transl idR p = translate transl p) /\
+  exists o' b', lattice_filltr RS [] [tr12 o b] transl = Some (tr12 o' b') /\
+    forall p, to_main o' b' p = translate transl (to_main o b p).
+Proof. exact lattice_filltr_trcl. Qed.
+Print Assumptions C04_lattice_filltr_trcl.
 
 (* non-vacuity: the quarter turn about z used by the corpus deck
    TRCL=(1 0 0  0 1 0  -1 0 0  0 0 1) satisfies every hypothesis on B, and moves
